@@ -561,4 +561,7 @@ def run(ctx, res):
     res.require_min("FINALISE-SIM", 2)
     res.require_min("T-EXH", 6)
     res.require_min("T-CONST", 2)
+    from ..filecreate import rule_file_create
+    res.guard(rule_file_create, prog, res, ("TRUNC",))
+    res.require_min("R-CREATE", 1)
     res.require_min("R-FRAME-TAGS", 4)
